@@ -200,7 +200,9 @@ def task(vkey, all_metrics):
 
 
 def c08_tasks():
-    return []
+    """the interactive builder's result is one of the emitted strings of C08: the same sessions
+    (they check acceptance by the class and the official pattern among other things)"""
+    return [("task", (v, a)) for v in ("2", "3.0", "3.1", "4.0") for a in (False, True)]
 
 
 def main():
